@@ -48,6 +48,7 @@ HS_MONITORS = ["AttributedOnlyIfProved", "NoCrash", "HonestServed", "NoSpurious"
 FR_MONITORS = ["Unmodified", "ExactlyOnce", "FIFO", "SendOrder", "OversizeRefused", "NoPanic", "Delivered", "FaultIsolated"]
 
 LIMIT = 20 * 1024 * 1024
+HS_ACTIONS = ("HInit", "Dial", "SendHS", "Auth", "Frame", "HNext")     # actions of the other part of the module
 
 
 def write_mc(wd, name, consts, invariants=(), trace=None, kind=None):
@@ -412,6 +413,9 @@ TYPES_TOPIC = [1, 2]
 TYPES_PLAIN = [0, 3, 7, 255]
 
 
+VECTORS = {}
+
+
 def tlc_fr(wd, tr):
     progs = PROGS_QUICK if tr == "quick" else PROGS_THOROUGH
     res = []
@@ -419,10 +423,14 @@ def tlc_fr(wd, tr):
     for (qc, wc) in ([(1, 1)] if tr == "quick" else [(1, 1), (2, 1)]):
         consts = base_consts(Part="fr", Progs=list(progs), Faults=FAULTS, QCap=qc, WCap=wc)
         name = write_mc(wd, "MC_fr%d%d" % (qc, wc), consts, ["PrefixFIFO", "NoSpurious", "OversizeRefused", "DeliveredAtQuiescence", "FaultIsolated", "NoPanic"])
-        r = vlib.run_tlc(name, name + ".cfg", ["Net.tla"], workdir=wd, timeout=2400, keep_prints=["SCEN", "PANIC"], deadlock=True, heap="12g")
+        r = vlib.run_tlc(name, name + ".cfg", ["Net.tla"], workdir=wd, timeout=2400, keep_prints=["SCEN", "PANIC", "VEC"], deadlock=True, heap="12g",
+                         coverage=(tr == "thorough" and (qc, wc) == (1, 1)))
         if r.violation:
             raise vlib.CheckError("Net model (framing part) violates %s at design level:\n%s" % (r.violation, "".join(r.error_trace[-2:])))
         for t, o in r.prints:
+            if t == "VEC":
+                VECTORS.update(o)
+                continue
             k = json.dumps([o["fault"], o["victim"], o["progs"]], sort_keys=True)
             if t == "SCEN":
                 shapes[k] = o
@@ -549,7 +557,7 @@ def fr_scenarios(shapes, panics, rng, tr):
 
 def fr_job(material, scs, workers):
     keys = ["id", "fault", "victim", "n", "dom", "progs", "raw", "slow_us", "late_ms", "timeout_ms", "grace_ms"]
-    return dict(material=material, workers=workers, scenarios=[{k: s[k] for k in keys} for s in scs])
+    return dict(material=material, workers=workers, vectors=VECTORS, scenarios=[{k: s[k] for k in keys} for s in scs])
 
 
 def fr_execute(drv, material, scs, wd, tag="fr"):
@@ -735,7 +743,7 @@ def run_c17(pid, only=None):
             viols[s["id"]] = v2[s["id"]]
         else:
             viols.pop(s["id"], None)
-            log("scenario %d: deliveries missing at the deadline in the batch run, complete when run alone (load): not a violation" % s["id"])
+            log("scenario %d (%s): deliveries missing at the deadline in the batch run, complete when run alone (load): not a violation" % (s["id"], s["fault"]))
     byid = {s["id"]: s for s in scs}
     drift_kinds = {}
     delivered = panics_seen = 0
@@ -769,6 +777,8 @@ def run_c17(pid, only=None):
         exhaustive=False,
         configs=[dict(part="fr", QCap=c["QCap"], WCap=c["WCap"], faults=FAULTS, program_sets=len(c["Progs"]), distinct_states=r.distinct,
                       states_generated=r.generated, depth=r.depth, wall_s=round(r.wall, 1)) for c, r in mres],
+        coverage_zero_actions=sorted(set(a for _, r in mres for a in r.coverage_zero if a not in HS_ACTIONS)),
+        frame_length_vectors_checked=len(VECTORS),
         scenario_shapes=len(shapes), shapes_reaching_panic_in_model=len(panics), scenarios=len(scs),
         scenarios_by_fault={f: sum(1 for s in scs if s["fault"] == f) for f in sorted(set(s["fault"] for s in scs))},
         flood_scenarios=sum(1 for s in scs if s["flood"]), payload_sizes=sizes, type_topic_combinations=[list(c) for c in combos],
